@@ -231,3 +231,16 @@ Proof.
       exists n2. rewrite Ef. f_equal. lia.
     + destruct ((n3 <=? afp rg) || (n <=? asp rg)); [discriminate|]. intros H. right; right. eapply T; exact H.
 Qed.
+
+(* a PE module on aarch64 (PeUnwinderError::Aarch64Unsupported) -> frame pointer *)
+Theorem pe_on_aarch64_uses_fp u a x rg m md rel :
+  lookup_address a = Ok x -> find_module amdata (mods _ u) x = Ok (Some (md, rel)) -> mdat md = AMPe ->
+  let o := unwind_frame_a u (cache_new arule) a rg m in
+  (o_res _ _ o, o_regs _ _ o) = aexec AUseFramePointer (negb (is_ra a)) rg m.
+Proof.
+  intros Hx Hf Hd. unfold unwind_frame_a, unwind_frame. rewrite Hx.
+  destruct (a_fresh_lookup_miss x (gen _ u)) as [c1 Hl]. rewrite Hl, Hf.
+  unfold cb_a64. rewrite Hd.
+  change afallback_rule with AUseFramePointer.
+  destruct (aexec AUseFramePointer (negb (is_ra a)) rg m). reflexivity.
+Qed.
